@@ -1,12 +1,290 @@
-/-! Model for property C13 (core-only: no Mathlib import, so the driver links). -/
+import OnetVerif.Model.Util
+import OnetVerif.Model.C13Hash
+/-! Model for property C13: identifiers are deterministic and distinguish what they identify.
+
+Every identifier of onet is a (name-based) UUID of a byte string — its **pre-image** — that the
+code assembles from the thing identified.  This file writes down each pre-image byte for byte:
+
+* token id    `messages.go:115-123`   SHA-1 UUID of `"https://dedis.epfl.ch/token/"` followed by the
+  36-character text forms of roster, round, service, protocol, tree and node id (in that order);
+* roster id   `tree.go:417-479`       SHA-1 UUID of the lower-case hex of SHA-256 of the members'
+  keys, each followed by its per-service keys, in list order;
+* tree id     `tree.go:69-97`         SHA-1 UUID of `"https://dedis.epfl.ch/tree/"`, the text form of
+  the roster id and the hex of SHA-256 of the keys in depth-first pre-order, a byte `1` after a leaf;
+* protocol id `protocol.go:115-119`   MD5 UUID of `"https://dedis.epfl.ch/protocolname/" ++ name`;
+* service id  `service.go:131`        SHA-1 UUID of the name;
+* server id   `network/struct.go:181-189` SHA-1 UUID of `"https://dedis.epfl.ch/id/" ++ Public.String()`;
+* node id     `tree.go:893-903`       SHA-1 UUID of `Public.String()`
+  (`Public.String()` of an Ed25519 point is the hex of its 32-byte encoding, kyber `point.go:34`).
+
+The hash functions are a parameter (`HashFns`); the theorems of `Props/C13.lean` are about the
+pre-images.  The driver instantiates the parameter with executable SHA-256 / SHA-1 / MD5
+(`C13Hash.lean`) so that it prints the same identifier the Go code computes.  Core-only. -/
 namespace C13
 
+/-- byte strings: `Nat`s below 256 -/
+abbrev Bytes := List Nat
+
+/-- all elements are bytes -/
+def IsBytes (l : Bytes) : Prop := ∀ b ∈ l, b < 256
+
+/-- ASCII codes of a string literal -/
+def ascii (s : String) : Bytes := s.toList.map Char.toNat
+
+/-- one lower-case hex digit (`encoding/hex`): `0-9` then `a-f` -/
+def hexNib (n : Nat) : Nat := if n < 10 then 48 + n else 87 + n
+
+/-- `hex.EncodeToString` as ASCII codes -/
+def hexAscii : Bytes → Bytes
+  | [] => []
+  | b :: r => hexNib (b / 16) :: hexNib (b % 16) :: hexAscii r
+
+/-- `uuid.UUID.String()`: 8-4-4-4-12 hex digits separated by `-` (ASCII 45) -/
+def uuidStr (u : Bytes) : Bytes :=
+  let h := hexAscii u
+  h.take 8 ++ [45] ++ ((h.drop 8).take 4 ++ [45] ++ ((h.drop 12).take 4 ++ [45] ++
+    ((h.drop 16).take 4 ++ [45] ++ h.drop 20)))
+
+/-- `network.NamespaceURL` (network/encoding.go:75) -/
+def ns : Bytes := ascii "https://dedis.epfl.ch/"
+
+/-! ### tokens (messages.go:103-124) -/
+
+/-- the six identifiers of a token, each the 16 bytes of a UUID -/
+structure Token where
+  roster  : Bytes
+  tree    : Bytes
+  proto   : Bytes
+  service : Bytes
+  round   : Bytes
+  node    : Bytes
+  deriving DecidableEq, Repr
+
+/-- a field that is a UUID: 16 bytes -/
+def IsUuid (u : Bytes) : Prop := u.length = 16 ∧ IsBytes u
+
+def Token.WF (t : Token) : Prop :=
+  IsUuid t.roster ∧ IsUuid t.tree ∧ IsUuid t.proto ∧ IsUuid t.service ∧ IsUuid t.round ∧ IsUuid t.node
+
+/-- `url := NamespaceURL + "token/" + RosterID + RoundID + ServiceID + ProtoID + TreeID + TreeNodeID` -/
+def tokenPre (t : Token) : Bytes :=
+  (ns ++ ascii "token/") ++ (uuidStr t.roster ++ (uuidStr t.round ++ (uuidStr t.service ++
+    (uuidStr t.proto ++ (uuidStr t.tree ++ uuidStr t.node)))))
+
+/-! ### names and keys -/
+
+/-- `ProtocolNameToID`: `NamespaceURL + "protocolname/" + name` (hashed with MD5) -/
+def protoPre (name : Bytes) : Bytes := (ns ++ ascii "protocolname/") ++ name
+
+/-- `serviceFactory.Register`: the name itself -/
+def servicePre (name : Bytes) : Bytes := name
+
+/-- `ServerIdentity.GetID`: `NamespaceURL + "id/" + Public.String()`, for a key whose text form is
+the hex of its encoding (Ed25519) -/
+def serverPre (key : Bytes) : Bytes := (ns ++ ascii "id/") ++ hexAscii key
+
+/-- `NewTreeNode`: `Public.String()` -/
+def nodePre (key : Bytes) : Bytes := hexAscii key
+
+/-! ### rosters (tree.go:417-479) -/
+
+/-- a server identity as far as the roster id sees it: the encoding of its public key and of the
+public keys of its service identities, in slice order -/
+structure Member where
+  key  : Bytes
+  svcs : List Bytes
+  deriving DecidableEq, Repr
+
+/-- `id.Public.MarshalTo(h)` then `srvid.Public.MarshalTo(h)` for every service identity -/
+def memberKeys (m : Member) : List Bytes := m.key :: m.svcs
+
+/-- all keys written to the hash, in order -/
+def rosterKeys : List Member → List Bytes
+  | [] => []
+  | m :: r => memberKeys m ++ rosterKeys r
+
+/-- the byte string fed to SHA-256 by `NewRoster` / `GetID` -/
+def rosterPre (ro : List Member) : Bytes := (rosterKeys ro).flatten
+
+/-! ### trees (tree.go:69-97) -/
+
+/-- rose trees as first-child / next-sibling forests; a node carries the key of its server -/
+inductive Forest where
+  | nil
+  | node (key : Bytes) (children : Forest) (siblings : Forest)
+  deriving DecidableEq, Repr
+
+/-- `len(t.Children) == 0` as seen from the children forest -/
+def Forest.isNil : Forest → Bool
+  | .nil => true
+  | .node _ _ _ => false
+
+/-- `if tn.IsLeaf() { h.Write([]byte{1}) }` -/
+def leafMark (c : Forest) : Bytes := if c.isNil then [1] else []
+
+/-- `root.Visit(0, …)`: key of every node in depth-first pre-order, `1` after a leaf -/
+def dfs : Forest → Bytes
+  | .nil => []
+  | .node k c s => k ++ (leafMark c ++ (dfs c ++ dfs s))
+
+/-- `NamespaceURL + "tree/" + roster.ID.String() + hex(sha256(dfs))` -/
+def treeOuterPre (rosterId digest : Bytes) : Bytes :=
+  (ns ++ ascii "tree/") ++ (uuidStr rosterId ++ hexAscii digest)
+
+def Forest.size : Forest → Nat
+  | .nil => 0
+  | .node _ c s => 1 + c.size + s.size
+
+/-- number of trees at top level (the arity of the parent) -/
+def Forest.len : Forest → Nat
+  | .nil => 0
+  | .node _ _ s => 1 + s.len
+
+/-- the shape alone: keys erased -/
+def shape : Forest → Forest
+  | .nil => .nil
+  | .node _ c s => .node [] (shape c) (shape s)
+
+/-- keys in depth-first pre-order, each with its is-a-leaf flag: what the placement of members
+and the leaf markers tell, and nothing about which node is whose child -/
+def pre : Forest → List (Bytes × Bool)
+  | .nil => []
+  | .node k c s => (k, c.isNil) :: (pre c ++ pre s)
+
+/-- every key of the forest has length `L` -/
+def KeysLen (L : Nat) : Forest → Prop
+  | .nil => True
+  | .node k c s => k.length = L ∧ KeysLen L c ∧ KeysLen L s
+
+/-- no key starts with the byte used as leaf marker -/
+def NoMarkHead : Forest → Prop
+  | .nil => True
+  | .node k c s => k.head? ≠ some 1 ∧ NoMarkHead c ∧ NoMarkHead s
+
+/-! ### identifiers -/
+
+/-- the three hash functions (a parameter of every identifier) -/
+structure HashFns where
+  sha256 : Bytes → Bytes
+  sha1   : Bytes → Bytes
+  md5    : Bytes → Bytes
+
+/-- `uuid.NameSpaceURL` = 6ba7b811-9dad-11d1-80b4-00c04fd430c8 -/
+def nsUrlUuid : Bytes := [0x6b, 0xa7, 0xb8, 0x11, 0x9d, 0xad, 0x11, 0xd1, 0x80, 0xb4, 0x00, 0xc0, 0x4f, 0xd4, 0x30, 0xc8]
+
+/-- `uuid.NewHash`: first 16 bytes of the digest, version and variant bits forced -/
+def uuidOf (version : Nat) (digest : Bytes) : Bytes :=
+  let u := digest.take 16
+  let u := u.set 6 (u.getD 6 0 % 16 + version * 16)
+  u.set 8 (u.getD 8 0 % 64 + 128)
+
+def uuid5 (H : HashFns) (data : Bytes) : Bytes := uuidOf 5 (H.sha1 (nsUrlUuid ++ data))
+def uuid3 (H : HashFns) (data : Bytes) : Bytes := uuidOf 3 (H.md5 (nsUrlUuid ++ data))
+
+def tokenId (H : HashFns) (t : Token) : Bytes := uuid5 H (tokenPre t)
+def protoId (H : HashFns) (name : Bytes) : Bytes := uuid3 H (protoPre name)
+def serviceId (H : HashFns) (name : Bytes) : Bytes := uuid5 H (servicePre name)
+def serverId (H : HashFns) (key : Bytes) : Bytes := uuid5 H (serverPre key)
+def nodeId (H : HashFns) (key : Bytes) : Bytes := uuid5 H (nodePre key)
+/-- the roster id as a function of the pre-image -/
+def rosterIdOfPre (H : HashFns) (p : Bytes) : Bytes := uuid5 H (hexAscii (H.sha256 p))
+def rosterId (H : HashFns) (ro : List Member) : Bytes := rosterIdOfPre H (rosterPre ro)
+/-- the tree id as a function of the roster id and the depth-first pre-image -/
+def treeIdOfPre (H : HashFns) (rid : Bytes) (p : Bytes) : Bytes := uuid5 H (treeOuterPre rid (H.sha256 p))
+def treeId (H : HashFns) (rid : Bytes) (f : Forest) : Bytes := treeIdOfPre H rid (dfs f)
+
+/-! ### line-protocol driver -/
 namespace Drv
-/-- line-protocol driver state for C13 -/
-abbrev State := Unit
-def init : State := ()
-/-- one line in (tokens after the property prefix), new state and one line out -/
-def step (s : State) (_toks : List String) : State × String := (s, "bad-op")
+
+def realHash : HashFns := { sha256 := Hash.sha256, sha1 := Hash.sha1, md5 := Hash.md5 }
+
+/-- the key table (Ed25519 keys `e…`, other suites `g…`: usable in rosters only) and the current
+roster: its members and its id -/
+structure State where
+  keys   : Array (Bool × Bytes) := #[]
+  roster : Array Member := #[]
+  rid    : Bytes := []
+
+def init : State := {}
+
+def showUuid (u : Bytes) : String := String.ofList ((uuidStr u).map Char.ofNat)
+
+/-- `e<hex>` / `g<hex>` -/
+def parseKey (s : String) : Option (Bool × Bytes) :=
+  match s.toList with
+  | 'e' :: r => (Util.unhex (String.ofList r)).bind fun b => if b.isEmpty then none else some (true, b)
+  | 'g' :: r => (Util.unhex (String.ofList r)).bind fun b => if b.isEmpty then none else some (false, b)
+  | _ => none
+
+/-- `i` or `i/j/k`: key index of the server, then of its service identities -/
+def parseMember (keys : Array (Bool × Bytes)) (s : String) : Option Member := do
+  let idx ← (s.splitOn "/").mapM String.toNat?
+  let ks ← idx.mapM fun i => (keys[i]?).map (·.2)
+  match ks with
+  | [] => none
+  | k :: svcs => some { key := k, svcs := svcs }
+
+/-- pre-order list of `member:arity` pairs → forest of `n` trees, with what is left over -/
+def parseForest (ro : Array Member) : (fuel : Nat) → (n : Nat) → List (Nat × Nat) → Option (Forest × List (Nat × Nat))
+  | _, 0, l => some (.nil, l)
+  | 0, _ + 1, _ => none
+  | fuel + 1, n + 1, (m, a) :: l =>
+      match ro[m]?, parseForest ro fuel a l with
+      | some mem, some (c, l1) =>
+          match parseForest ro fuel n l1 with
+          | some (s, l2) => some (.node mem.key c s, l2)
+          | none => none
+      | _, _ => none
+  | _ + 1, _ + 1, [] => none
+
+def parsePair (s : String) : Option (Nat × Nat) :=
+  match s.splitOn ":" with
+  | [a, b] => do some ((← a.toNat?), (← b.toNat?))
+  | _ => none
+
+def uuidArg (s : String) : Option Bytes :=
+  (Util.unhex s).bind fun b => if b.length = 16 then some b else none
+
+def step (s : State) (toks : List String) : State × String :=
+  match toks with
+  | "keys" :: ks =>
+    match ks.mapM parseKey with
+    | some l =>
+      if l.isEmpty then (s, "bad-op") else
+      ({ s with keys := l.toArray },
+        " ".intercalate (l.map fun (ed, k) =>
+          if ed then showUuid (serverId realHash k) ++ "/" ++ showUuid (nodeId realHash k) else "-"))
+    | none => (s, "bad-op")
+  | "roster" :: ms =>
+    match ms.mapM (parseMember s.keys) with
+    | some l =>
+      if l.isEmpty then (s, "bad-op") else
+      let rid := rosterId realHash l
+      ({ s with roster := l.toArray, rid := rid }, showUuid rid)
+    | none => (s, "bad-op")
+  | ["tree", d] =>
+    match (d.splitOn ",").mapM parsePair with
+    | some l =>
+      if s.roster.isEmpty then (s, "bad-op") else
+      match parseForest s.roster (l.length + 1) 1 l with
+      | some (f, []) => (s, showUuid (treeId realHash s.rid f))
+      | _ => (s, "bad-op")
+    | none => (s, "bad-op")
+  | ["token", a, b, c, d, e, f] =>
+    match uuidArg a, uuidArg b, uuidArg c, uuidArg d, uuidArg e, uuidArg f with
+    | some a, some b, some c, some d, some e, some f =>
+      (s, showUuid (tokenId realHash { roster := a, tree := b, proto := c, service := d, round := e, node := f }))
+    | _, _, _, _, _, _ => (s, "bad-op")
+  | ["proto", n] =>
+    match Util.unhex n with
+    | some n => (s, showUuid (protoId realHash n))
+    | none => (s, "bad-op")
+  | ["service", n] =>
+    match Util.unhex n with
+    | some n => (s, showUuid (serviceId realHash n))
+    | none => (s, "bad-op")
+  | _ => (s, "bad-op")
+
 end Drv
 
 end C13
